@@ -177,6 +177,19 @@ func genCLI(out *bufio.Writer, rng *rand.Rand, count int) int {
 			fixed = size / 2
 			files = append(files, []byte([]string{"nop 0\njmp -1\n", "nop 0\nnop 0\nnop 0\njmp -3\n"}[n/6]), []byte("jmp 0\n"))
 		}
+		forceCI := -1
+		if n >= 12 && n < 36 {
+			// ... and every predefined constant under every preset
+			scripted, census = false, false
+			preset = []string{"nop94", "88", "icws", "noptiny", "nop256", "nopnano"}[(n-12)/4]
+			legacy = preset == "88" || preset == "icws"
+			wantConst, debug, forceCI = true, false, (n-12)%4
+			ln, rounds, nfiles, cycles = 5, 1, 2, 0
+			fixed = 0
+			if pc, err := gmars.PresetConfig(preset); err == nil {
+				fixed = int(pc.CoreSize) / 2
+			}
+		}
 		if census {
 			// a warrior that counts its own tasks: 2^k tasks each add 1 to a counter, the one that
 			// sees the expected total survives — the outcome depends on every queued task
@@ -242,6 +255,9 @@ func genCLI(out *bufio.Writer, rng *rand.Rand, count int) int {
 				names := []string{"CORESIZE", "MAXLENGTH", "MAXPROCESSES", "MINDISTANCE"}
 				vals := []uint64{uint64(cfg.CoreSize), uint64(cfg.Length), uint64(cfg.Processes), uint64(cfg.Distance)}
 				ci := rng.Intn(4)
+				if forceCI >= 0 {
+					ci = forceCI
+				}
 				add := uint64(rng.Intn(9))
 				want := (vals[ci] + add) % uint64(cfg.CoreSize)
 				if rng.Intn(4) == 0 {
